@@ -64,6 +64,25 @@ def processMsg (s : FLog) (msg : FMsg) : FLog :=
 
 def processAll (s : FLog) (msgs : List FMsg) : FLog := msgs.foldl processMsg s
 
+/-- the controller's answer to `RQ|0418|idx`: the entry it has at that position, or the null entry -/
+def ctlReply (L : List Nat) (idx : Nat) : FMsg := ⟨idx, L[idx]?⟩
+
+/-- the loop of `FaultLog.get_faultlog(start, limit)` against a controller whose log is `L` (newest
+    first): ask for `idx = start, start+1, …`, `n` requests at most; a null reply is processed and
+    ends the loop -/
+def readLoop (L : List Nat) : Nat → Nat → FLog → FLog
+  | 0, _, s => s
+  | n + 1, i, s =>
+    let s' := processMsg s (ctlReply L i)
+    if L[i]? = none then s' else readLoop L n (i + 1) s'
+
+/-- the log positions a controller has: 0x00 … 0x3F -/
+def logDepth : Nat := 64
+
+/-- `get_faultlog(start=…, limit=…)`: `for idx in range(start, min(start + limit, 64))` -/
+def getFaultlog (L : List Nat) (s : FLog) (start limit : Nat) : FLog :=
+  readLoop L (min (start + limit) logDepth - start) start s
+
 /-- the `faultlog` property: `{idx: self._log[dtm] ...}` raises KeyError iff some mapped stamp
     is not held in `_log` -/
 def viewTotal (s : FLog) : Bool := s.map.all (fun kv => s.log.contains kv.2)
